@@ -220,6 +220,13 @@ class PyList:
         return "PyList(%r)" % (self.items,)
 
 
+class Reversed:
+    """reversed(seq): only iterated"""
+
+    def __init__(self, seq):
+        self.seq = seq
+
+
 class PyDict:
     """A Python dict literal with constant keys (small tables, kwargs)."""
 
